@@ -8,7 +8,7 @@ import dbmodel as M
 import iotie
 
 KINDS = ["insert", "insert_multiple", "remove_some", "remove_none", "remove_all_match", "update_some",
-         "update_nochange", "drop", "remove_all", "handle_update", "insert_multiple_bad", "update_raises", "update_shrink", "remove_most", "insert_big_rows", "update_newest_big", "insert_after_failed_update_big", "insert_newer_unsorted"]
+         "update_nochange", "drop", "remove_all", "handle_update", "insert_multiple_bad", "update_raises", "update_shrink", "remove_most", "insert_big_rows", "update_newest_big", "insert_after_failed_update_big", "insert_newer_unsorted", "rewrite_line_separators", "rewrite_twice_linebreaks"]
 BAD = [{"time": 0, "meas": "<undecodable>", "tags": {}, "fields": {}}]
 
 
@@ -28,7 +28,7 @@ def main(tier, seed):
     refused = []
     # the storage's I/O calls are regenerated from storages.py (symbolic execution) and proved equal to the model's scripts (proofs/IOGenP.v)
     b = ck.build_proofs("Prop_C12", pre=lambda: run_translator("py2coq_io.py", "tinyflux/storages.py", "gen/IOGen.v", refused), extra_targets=["Run.vo", "IO.vo"])
-    n_cases = 18 if tier == "quick" else 162
+    n_cases = 20 if tier == "quick" else 180
     cases = iotie.io_cases(seed, n_cases, kinds=KINDS)
     coq_cases, direct_bad, n_pairs, kinds, hard_checked = [], [], 0, {}, 0
     for ci, (hist, op, auto, kind) in enumerate(cases):
